@@ -535,6 +535,31 @@ pub fn run(cfg: &Cfg) {
         }
     }
 
+    // ---- texts around the escape sequences of the signed form: a literal backslash followed by what looks
+    //      like an escape (`\u` and then letters of two, three and four bytes, too few digits, the end of the
+    //      text), in every string of a link that is signed, verified and re-signed, and in a key description
+    for t in ["\\u\u{65e5}\u{672c}", "dist\\ua\u{e9}\u{e9}.bin", "C:\\u\u{65e5}\u{672c}\\out.txt", "\\u", "\\", "x\\", "\\u12", "\\u\u{1F600}", "\\u00\u{e9}9", "\"\\u", "\\\\u\u{e9}\u{e9}\u{e9}", "\\n\\u\u{e9}", "\\ud800", "\\uDFFF\u{e9}", "\\u+123", "\n\\u\u{4e2d}", "\\b\\f\\r\\t\\/"] {
+        let meta = crate::c11::link_with(t);
+        let key = &pool[0];
+        let replay = format!("signed-text string {}", hex(t.as_bytes()));
+        let (m2, k2) = (meta.clone(), key.reload());
+        let res = guarded(move || {
+            let mb = Metablock::new(m2.clone(), &[&k2]).ok();
+            let ok = mb.as_ref().map_or(false, |m| m.verify(1, [k2.public()]).is_ok());
+            let built = in_toto::models::MetablockBuilder::from_metadata(m2.into_trait()).sign(&[&k2]).map(|b| b.build());
+            let ok2 = built.map_or(false, |m| m.verify(1, [k2.public()]).is_ok());
+            // read from a file whose signature is anything: the signed text is built before signatures are looked at
+            let text = mb.as_ref().map(|m| serde_json::to_string(m).unwrap()).unwrap_or_default();
+            let ok3 = serde_json::from_str::<Metablock>(&text).ok().map_or(false, |m| m.verify(1, [k2.public()]).is_ok());
+            ok && ok2 && ok3
+        });
+        sink.stat(&format!("escape-like-text/{}", match res { Err(()) => "PANIC", Ok(true) => "signs-and-verifies", Ok(false) => "refused" }));
+        sink.oracle(res.is_ok(), "signing or verifying a link panicked on a string with a backslash followed by escape-like text", &replay);
+        sink.oracle(res != Ok(false), "a link with a backslash followed by escape-like text in its strings does not verify under the key that just signed it", &replay);
+        let doc = serde_json::json!({"keytype": "ed25519", "scheme": "ed25519", "keyid_hash_algorithms": [t], "keyval": {"public": "a".repeat(64)}}).to_string();
+        feed(&mut sink, "serde_json::from_slice::<PublicKey>", doc.as_bytes(), |b| serde_json::from_slice::<PublicKey>(b).is_ok());
+    }
+
     // ---- seeds: valid documents of every kind
     let mut seeds: Vec<Vec<u8>> = vec![];
     for _ in 0..8 {
